@@ -14,7 +14,8 @@ def handlers : List (String × Handler) := [
     let amaxe ← ratList j "amax_eff"
     let plan := autoauxPlan z amin amaxp amaxe 400
     pure (obj [("lval", toJson (lvalAux z)), ("linc", toJson (lincAux z)),
-               ("plan", Json.arr (plan.map fun p => Json.arr #[toJson p.1, Json.arr (p.2.map ratJson).toArray]).toArray)])),
+               ("plan", Json.arr (plan.map fun p => Json.arr #[toJson p.1, Json.arr (p.2.map ratJson).toArray]).toArray),
+               ("bounds", Json.arr (plan.map fun p => Json.arr #[toJson p.1, ratJson (ladderParams z amin amaxp amaxe p.1).2.2]).toArray)])),
   ("autoabs_groups", fun j => do
     let z ← getNat j "Z"
     let lmax ← getNat j "lmax"
